@@ -41,6 +41,17 @@ CLAIMED = {
         note="Trusted: Coq kernel, translator, harness; pathlib semantics (compared on every generated string); pydantic runs the validators on load; symlinks out of scope. That all read sites use validated paths is shown by audit runs, not by theorem.",
         technique="Coq proof (all strings) over AST-generated validators + differential correspondence with pathlib + audit-hook fault injection",
         design="7/C17"),
+    "C13": dict(
+        text="Coq theorems over a small-step transition system of LazyPool.imap_unordered + Collector threads at queue-operation granularity "
+             "(consumer: prefill/get/put/reset/abandon; workers: get/compute/put; prefill bound, reset sentinel count and exception mode regenerated from lazy_pool.py), "
+             "for every T>=1, every input list, every (possibly failing) mapped function and every schedule: no deadlock unless consumer finished and all workers ended; "
+             "at most 5n+15T+12 steps under any schedule; a normally finished pass yields exactly one result per input (all counting predicates / permutation), all workers ended, "
+             "pool counter reset; a failing input never lets the pass finish normally; abandonment leaves every worker able to terminate. "
+             "Tie: the real threads are driven one queue operation at a time by a gated-queue scheduler (8+ strategies incl. adversarial timeouts); every recorded trace "
+             "is replayed step by step in the model (same payload at every operation, same ending, same yielded list).",
+        note="Trusted: Coq kernel, translator, scheduler harness; queue.Queue FIFO/atomic/unbounded; code between two queue operations is thread-local; mapped function terminates.",
+        technique="Coq proof (counting + FIFO invariants, decreasing measure, over all schedules) + AST-generated kernels + controlled-scheduler trace replay",
+        design="7/C13"),
 }
 REASON_TODO = "not yet built: the Coq model/theorems for this property are scheduled later in the build order of DESIGN.md section 10; nothing is claimed until its check exists"
 
